@@ -76,7 +76,7 @@ RandOf(j) == IF Len(E.rands) = 0 THEN 1 ELSE E.rands[((j - 1) % Len(E.rands)) + 
 MainOf(j) == ((j - 1) % E.width) + 1
 AuxConstraint(j, x) ==
     LET m == TraceAt(MainOf(j), x)  r == RandOf(j)  cur == AuxAt(j, x)  nxt == AuxAt(j, MulM(E.g, x))
-    IN  IF E.aux_degs[j] = 1 THEN SubM(nxt, AddM(cur, MulM(r, m))) ELSE SubM(nxt, MulM(cur, AddM(m, r)))
+    IN  IF E.aux_degs[j] = 1 THEN SubM(nxt, AddM(cur, MulM(r, m))) ELSE SubM(nxt, MulM(cur, PowM(AddM(m, r), E.aux_degs[j] - 1)))
 \* value an auxiliary assertion claims for column j (1-based) at step s: r_j * (sum of the main column over steps 0..s-1), or 1
 PrefixSum(c, s) == FoldLeft(LAMBDA acc, i : AddM(acc, E.trace[c][i]), 0, [i \in 1..s |-> i])
 AuxValue(j, s) == IF E.aux_degs[j] = 1 THEN MulM(RandOf(j), PrefixSum(MainOf(j), s)) ELSE 1
